@@ -91,13 +91,13 @@ impl Metrics {
 
     pub fn add_inbound_bytes(&self, protocol: Protocol, n: usize) {
         self.inbound_traffic
-            .with_label_values(&[protocol.as_str()])
+            .with_label_values(&[protocol_label(protocol)])
             .inc_by(n as u64);
     }
 
     pub fn add_outbound_bytes(&self, protocol: Protocol, n: usize) {
         self.outbound_traffic
-            .with_label_values(&[protocol.as_str()])
+            .with_label_values(&[protocol_label(protocol)])
             .inc_by(n as u64);
     }
 
@@ -129,7 +129,7 @@ impl ClientSessionsCounter {
     fn new(metrics: Arc<Metrics>, protocol: Protocol) -> Self {
         metrics
             .client_sessions
-            .with_label_values(&[protocol.as_str()])
+            .with_label_values(&[protocol_label(protocol)])
             .inc();
 
         Self { metrics, protocol }
@@ -140,7 +140,7 @@ impl Drop for ClientSessionsCounter {
     fn drop(&mut self) {
         self.metrics
             .client_sessions
-            .with_label_values(&[self.protocol.as_str()])
+            .with_label_values(&[protocol_label(self.protocol)])
             .dec();
     }
 }
@@ -326,6 +326,15 @@ async fn handle_metrics_collect(
     }
 
     sink.eof()
+}
+
+/// The `protocol_type` label values as documented in METRICS.md
+fn protocol_label(protocol: Protocol) -> &'static str {
+    match protocol {
+        Protocol::Http1 => "http1",
+        Protocol::Http2 => "http2",
+        Protocol::Http3 => "http3",
+    }
 }
 
 fn prometheus_to_io_error(e: prometheus::Error) -> io::Error {
